@@ -1513,6 +1513,7 @@ func sliceHoldsCachedSet(v ssa.Value, seen map[ssa.Value]bool, depth int) bool {
 // full vector and the code of the same point makes the reported distance depend
 // on what happens to be cached (C04: warm = cold; C08).
 func QDist(w *load.World, c *core.Collector) {
+	metricFormula(w, c)
 	props := []string{"C04", "C08"}
 	n := 0
 	for _, f := range w.Fns {
@@ -2588,4 +2589,153 @@ func resultFieldRead(v ssa.Value) string {
 		v = u.X
 	}
 	return ""
+}
+
+// metricFormula: the cosine and dot metrics are the kernel's inner product put through "one
+// minus" and "minus" and nothing else. The property gives the metric as exactly that; a clamp
+// (max(0, …), min(…, 1)) makes every pair beyond the clamp tie, and the k nearest among them are
+// whichever the scan met first. The functions are found through the metric table
+// (GetFloatDistanceFn: name constant → function), not by their names.
+func metricFormula(w *load.World, c *core.Collector) {
+	props := []string{"C04", "C03", "C20"}
+	tab := findFn(w, "distance.GetFloatDistanceFn")
+	if tab == nil {
+		c.Add("QDIST", "anchor:metric-table", core.Undecided, "", "distance.GetFloatDistanceFn not found", props...)
+		return
+	}
+	byName := map[string]*ssa.Function{}
+	for _, b := range tab.Blocks {
+		ifi, ok := b.Instrs[len(b.Instrs)-1].(*ssa.If)
+		if !ok {
+			continue
+		}
+		bo, ok := ifi.Cond.(*ssa.BinOp)
+		if !ok || bo.Op != token.EQL {
+			continue
+		}
+		name, ok := ssax.ConstString(bo.Y)
+		if !ok {
+			if name, ok = ssax.ConstString(bo.X); !ok {
+				continue
+			}
+		}
+		prev, t := b, b.Succs[0]
+		for i := 0; i < 4; i++ {
+			if _, isJ := t.Instrs[len(t.Instrs)-1].(*ssa.Jump); isJ {
+				prev, t = t, t.Succs[0]
+				continue
+			}
+			break
+		}
+		if ret, ok := t.Instrs[len(t.Instrs)-1].(*ssa.Return); ok && len(ret.Results) > 0 {
+			rv := ret.Results[0]
+			// the function chosen on this branch, when the branches meet in one return
+			for i := 0; i < 3; i++ {
+				if ct, ok := rv.(*ssa.ChangeType); ok {
+					rv = ct.X
+					continue
+				}
+				if phi, ok := rv.(*ssa.Phi); ok && phi.Block() == t {
+					for k, p := range t.Preds {
+						if p == prev {
+							rv = phi.Edges[k]
+						}
+					}
+					continue
+				}
+				break
+			}
+			for _, fn := range funcValuesOf(w, rv, 0) {
+				byName[name] = fn
+			}
+		}
+	}
+	type aff struct {
+		c, s  float64
+		calls int
+	}
+	var eval func(v ssa.Value, d int) (aff, bool)
+	eval = func(v ssa.Value, d int) (aff, bool) {
+		if d > 8 {
+			return aff{}, false
+		}
+		switch x := v.(type) {
+		case *ssa.Const:
+			if x.Value != nil && (x.Value.Kind() == constant.Float || x.Value.Kind() == constant.Int) {
+				f, _ := constant.Float64Val(constant.ToFloat(x.Value))
+				return aff{c: f}, true
+			}
+		case *ssa.Call:
+			if _, isB := x.Call.Value.(*ssa.Builtin); isB {
+				return aff{}, false
+			}
+			return aff{s: 1, calls: 1}, true
+		case *ssa.Convert:
+			return eval(x.X, d+1)
+		case *ssa.UnOp:
+			if x.Op == token.SUB {
+				a, ok := eval(x.X, d+1)
+				return aff{-a.c, -a.s, a.calls}, ok
+			}
+			if x.Op == token.MUL {
+				if al, ok := x.X.(*ssa.Alloc); ok {
+					if sv := ssax.SingleStore(al); sv != nil {
+						return eval(sv, d+1)
+					}
+				}
+			}
+		case *ssa.BinOp:
+			a, ok1 := eval(x.X, d+1)
+			b, ok2 := eval(x.Y, d+1)
+			if !ok1 || !ok2 {
+				return aff{}, false
+			}
+			switch x.Op {
+			case token.ADD:
+				return aff{a.c + b.c, a.s + b.s, a.calls + b.calls}, true
+			case token.SUB:
+				return aff{a.c - b.c, a.s - b.s, a.calls + b.calls}, true
+			case token.MUL:
+				if a.calls == 0 {
+					return aff{a.c * b.c, a.c * b.s, b.calls}, true
+				}
+				if b.calls == 0 {
+					return aff{a.c * b.c, b.c * a.s, a.calls}, true
+				}
+			}
+		}
+		return aff{}, false
+	}
+	want := map[string]aff{"cosine": {c: 1, s: -1, calls: 1}, "dot": {c: 0, s: -1, calls: 1}}
+	for _, name := range []string{"cosine", "dot"} {
+		key := "formula:" + name
+		fn := byName[name]
+		if fn == nil {
+			c.Add("QDIST", key, core.Undecided, w.Position(tab.Pos()), "the metric table has no entry for "+name, props...)
+			continue
+		}
+		bad := ""
+		n := 0
+		for _, b := range fn.Blocks {
+			ret, ok := b.Instrs[len(b.Instrs)-1].(*ssa.Return)
+			if !ok || len(ret.Results) != 1 {
+				continue
+			}
+			n++
+			a, ok := eval(ret.Results[0], 0)
+			if !ok {
+				bad = "the result is not the inner product put through a linear formula (a clamp, a branch or another function is applied to it): all pairs beyond the clamp get the same distance and tie"
+			} else if a != want[name] {
+				bad = fmt.Sprintf("the result is %g %+g times the inner product, the metric is %g %+g times it", a.c, a.s, want[name].c, want[name].s)
+			}
+		}
+		if n == 0 {
+			bad = "no return found"
+		}
+		if bad != "" {
+			c.Add("QDIST", key, core.Violation, w.Position(fn.Pos()), bad, props...)
+		} else {
+			c.Add("QDIST", key, core.OK, w.Position(fn.Pos()), "", props...)
+		}
+	}
 }
